@@ -98,6 +98,7 @@ PROPS["C11"] = {
         {"name": "fam-g2-w64-330", "world": "W64-330", "src": "props/C04_fam.c", "tiers": ("thorough",), "args": ["--only", "c11-"], "share": 0.04},
         {"name": "fam-g2-w64-638", "world": "W64-638", "src": "props/C04_fam.c", "tiers": ("thorough",), "args": ["--only", "c11-"], "share": 0.04},
         {"name": "fam-g2-w64-575q", "world": "W64-575q", "src": "props/C04_fam.c", "tiers": ("thorough",), "args": ["--only", "c11-"], "share": 0.04},
+        {"name": "fam-g2-w64-544", "world": "W64-544", "src": "props/C04_fam.c", "tiers": ("thorough",), "args": ["--only", "c11-"], "share": 0.03},
     ],
 }
 
@@ -117,6 +118,7 @@ PROPS["C12"] = {
         {"name": "fam-pc-w64-330", "world": "W64-330", "src": "props/C04_fam.c", "tiers": ("thorough",), "args": ["--only", "c12-"]},
         {"name": "fam-pc-w64-638", "world": "W64-638", "src": "props/C04_fam.c", "tiers": ("thorough",), "args": ["--only", "c12-"]},
         {"name": "fam-pc-w64-575q", "world": "W64-575q", "src": "props/C04_fam.c", "tiers": ("thorough",), "args": ["--only", "c12-"]},
+        {"name": "fam-pc-w64-544", "world": "W64-544", "src": "props/C04_fam.c", "tiers": ("thorough",), "args": ["--only", "c12-"]},
     ],
 }
 
@@ -136,6 +138,7 @@ PROPS["C04"] = {
         {"name": "fam-w64-330", "world": "W64-330", "src": "props/C04_fam.c", "tiers": ("thorough",), "args": ["--only", "c04-"]},
         {"name": "fam-w64-638", "world": "W64-638", "src": "props/C04_fam.c", "tiers": ("thorough",), "args": ["--only", "c04-"]},
         {"name": "fam-w64-575q", "world": "W64-575q", "src": "props/C04_fam.c", "tiers": ("thorough",), "args": ["--only", "c04-"]},
+        {"name": "fam-w64-544", "world": "W64-544", "src": "props/C04_fam.c", "tiers": ("thorough",), "args": ["--only", "c04-"]},
     ],
 }
 
